@@ -7,7 +7,11 @@ PROPERTIES = {
         claim="codec round trip, refusal of truncated data and exception discipline proved for all inputs as postconditions over contracts on the real functions",
         note="floats as reals; struct/blake2b/int.to_bytes library contracts trusted; see evidence.trusted_base",
         assumptions=["struct '<d' pack/unpack is a bijection on floats", "blake2b collision-freeness"],
-        not_reached=[],
+        not_reached=["composition of the codecs with the re-computation of derived values on whole programs (specifier resolution, mutation): only the bounded stand-in scene_codec reaches it"],
+        bounded=[
+            "stand-in scene_codec (never counted as proved): real sceneToBytes / sceneFromBytes on 3 programs (random 3-D orientations, nested discrete choices, mutation) x 2 seeds: round trip equal, "
+            "every truncation point refused, single-byte corruptions (6 byte values per position in the quick tier, all 255 in the thorough tier) under a 5 s watchdog fail only with SerializationError",
+        ],
     ),
     "C02": dict(
         modules=["sample_checking", "requirements", "scenarios", "planar"],
